@@ -107,6 +107,7 @@ func appendOutputEvents(rc *runCase, p *gen.Project, root string) {
 			return
 		}
 		lines := strings.Split(strings.ReplaceAll(string(b), "\r\n", "\n"), "\n")
+		lastN, count := 0, 0
 		for i, ln := range lines {
 			if i == 0 || strings.TrimSpace(ln) == "" { // one headline
 				continue
@@ -149,11 +150,13 @@ func appendOutputEvents(rc *runCase, p *gen.Project, root string) {
 					e["emerg"], e["anth"], e["mat"] = atoi(fields[3]), atoi(fields[4]), atoi(fields[5])
 				}
 			} else {
-				e["n"] = parseDateText(strings.TrimSpace(fields[0]), p.Cfg.DateFormat)
+				lastN = parseDateText(strings.TrimSpace(fields[0]), p.Cfg.DateFormat)
+				e["n"] = lastN
 			}
+			count++
 			emit(e)
 		}
-		emit(map[string]interface{}{"ev": "out.end", "kind": kind})
+		emit(map[string]interface{}{"ev": "out.end", "kind": kind, "last": lastN, "count": count})
 	}
 	if p.Cfg.OutInt > 0 {
 		parse("daily", "V", len(pDaily(p)))
@@ -536,4 +539,49 @@ func validateConcat(c *core.Ctx, cases []*runCase, module, cfg string, chunk int
 		mu.Unlock()
 	})
 	return res
+}
+
+// cfgWithout returns the text of a cfg of spec/cfg with the named invariants removed from its INVARIANTS line(s).
+func cfgWithout(cfg string, drop []string) string {
+	b, err := os.ReadFile(filepath.Join(core.VerifRoot, "spec", "cfg", cfg))
+	if err != nil {
+		return ""
+	}
+	dropSet := map[string]bool{}
+	for _, d := range drop {
+		dropSet[d] = true
+	}
+	var out []string
+	for _, ln := range strings.Split(string(b), "\n") {
+		t := strings.TrimSpace(ln)
+		if strings.HasPrefix(t, "INVARIANTS") || strings.HasPrefix(t, "INVARIANT ") {
+			f := strings.Fields(t)
+			keep := []string{f[0]}
+			for _, w := range f[1:] {
+				if !dropSet[w] {
+					keep = append(keep, w)
+				}
+			}
+			if len(keep) > 1 {
+				out = append(out, strings.Join(keep, " "))
+			}
+			continue
+		}
+		out = append(out, ln)
+	}
+	return strings.Join(out, "\n")
+}
+
+// revalidateWithout validates one case again with some invariants switched off: after a listed finding was met, the
+// rest of the trace is still judged by everything else.
+func revalidateWithout(c *core.Ctx, rc *runCase, module, cfg string, drop []string) *traceResult {
+	txt := cfgWithout(cfg, drop)
+	if txt == "" {
+		return nil
+	}
+	r := validateCases(c, []*runCase{rc}, module, cfg+"-without-"+strings.Join(drop, "+"), txt)
+	if len(r) == 0 {
+		return nil
+	}
+	return r[0]
 }
